@@ -107,7 +107,7 @@ var FallbackKinds = []string{"struct", "map", "ptr", "func", "chan", "structptr"
 
 var IntPool = []int64{0, 1, -1, 2, 7, 10, 42, 127, 128, -128, -129, 255, 256, 32767, -32768, 65535, 65536, math.MaxInt32, math.MinInt32, math.MaxInt64, math.MinInt64, 1 << 53, (1 << 53) + 1, -(1 << 53) - 1, 1234567890123456789}
 var UintPool = []uint64{0, 1, 2, 9, 10, 255, 256, 65535, 65536, math.MaxUint32, math.MaxUint32 + 1, math.MaxInt64, math.MaxInt64 + 1, math.MaxUint64, 1<<53 + 1}
-var FloatPool = []float64{0, math.Copysign(0, -1), 1, -1, 0.5, 1.5, 0.1, -0.1, 1e-7, 1e21, 1e-320, 5e-324, math.MaxFloat64, -math.MaxFloat64, math.SmallestNonzeroFloat64, math.MaxFloat32, math.SmallestNonzeroFloat32, 1e100, 123456789.125, math.Pi, math.NaN(), math.Inf(1), math.Inf(-1), 1 << 53, 1<<53 + 2}
+var FloatPool = []float64{0, math.Copysign(0, -1), 1, -1, 0.5, 1.5, 0.1, -0.1, 1e-7, 1e21, 1e-320, 5e-324, math.MaxFloat64, -math.MaxFloat64, math.SmallestNonzeroFloat64, math.MaxFloat32, math.SmallestNonzeroFloat32, 1e100, 123456789.125, math.Pi, math.NaN(), math.Inf(1), math.Inf(-1), 1 << 53, 1<<53 + 2, 9223372036854775808.0, -9223372036854775808.0, 18446744073709551616.0, 9007199254740992.0, 9007199254740993.0, 4294967296.0, 2147483648.0, -2147483649.0, 1e15, 1e16, 1e20, 1e21, 1e-6, 1e-7, 123456789012345678.0, 0.1 + 0.2}
 
 func (r *R) Int64() int64 {
 	if r.P(60) {
